@@ -173,13 +173,14 @@ PROPS = {
         explanation='deductive control-flow contracts for findroot / MNewton; the ordering of polyroots is covered only by the bounded tier',
         technique='deductive control-flow contracts: guard-dominates-return and keyword-dataflow clauses over all paths of the real code + bounded native check of polyroots ordering'),
     'C35': dict(
-        title='integer relation results are genuine relations', level='proof', engines=['guards'], no_units=True,
+        title='integer relation results are genuine relations', level='other', engines=['guards', 'boundedprops'], no_units=True,
         claim='Control-flow contract of pslq, for all inputs: every vector returned went through `err < tol` and '
               '`max(abs(v) for v in vec) < maxcoeff` on that path after it was built, and is built as a list of Python ints. '
-              'Not applicable: that the returned vector is a genuine relation |sum c_k x_k| <= tol*||x|| (the success test is '
+              'Bounded (exact rational check): for vectors of classical constants with and without planted relations at scales 2^-40..2^40 and three tolerances, every vector pslq returns is a non-zero integer vector below maxcoeff with |c.x| <= tol*||x||_2, and planted relations are found. Not decided deductively: that the returned vector is a genuine relation |sum c_k x_k| <= tol*||x|| (the success test is '
               'on the reduced vector; this rests on the PSLQ matrix invariant in fixed point), non-zero-ness, findpoly/identify.',
         note='Only which checks dominate which returns is decided; the tested data is not interpreted.',
-        technique='deductive control-flow contract: guard-dominates-return over all paths of the real pslq body'),
+        explanation='deductive control-flow contract for the acceptance guards; the bound itself is covered only by the bounded tier',
+        technique='deductive control-flow contract (guard dominates return) over all paths of pslq + bounded native check of the returned relations with exact rational arithmetic'),
     'C33': dict(
         title='cached state never leaks stale or wrong results', level='proof', engines=['cachekeys'],
         claim='Cache-protocol contracts decided on the real code by data-flow analysis (for all inputs, no execution): '
